@@ -7,7 +7,17 @@ OUTSIDE = "arbitrary long permutations on wide matrices (only windows of <= 7 no
 ASSUMPTIONS = ["permutations are LAPACK style with i <= P[i] < length (what the property states)",
                "mzd_xor_bits: value has only its n low bits set (documented: 'n bits from values')"]
 
+US = {"mzd_col_swap_in_rows": 8, "mzd_row_clear_offset": 6, "mzd_row_add_offset": 6, "mzd_apply_p_right_trans_tri": 80}
+
 def plan(tier, seed):
+    T = tier == "thorough"
+    qs = _plan(tier, seed)
+    for q in qs:
+        if not q.unwindset:
+            q.unwindset = dict(US)
+    return qs
+
+def _plan(tier, seed):
     T = tier == "thorough"
     qs = []
     shapes = [(5, 1), (5, 63), (5, 64), (5, 65), (5, 130), (4, 200)]
@@ -15,8 +25,11 @@ def plan(tier, seed):
         d = {"NR": nr, "NC": nc}
         t = "%dx%d" % (nr, nc)
         qs.append(Q("rowswap-" + t, "c13.c", dict(d, H_ROWSWAP=None), group="c13-rowswap", checks="safety"))
-        qs.append(Q("colswap-" + t, "c13.c", dict(d, H_COLSWAP=None), group="c13-colswap", checks="safety", timeout=900, fallback="kissat"))
-        qs.append(Q("colswaprows-" + t, "c13.c", dict(d, H_COLSWAP=None, INROWS=None), group="c13-colswap", checks="safety", timeout=900, fallback="kissat"))
+        if T or nc in (1, 64, 65, 130):
+            dd = dict(d) if (T or nc <= 64) else dict(d, NR=3)
+            tt = "%dx%d" % (dd["NR"], nc)
+            qs.append(Q("colswap-" + tt, "c13.c", dict(dd, H_COLSWAP=None), group="c13-colswap", checks="safety", timeout=1500, fallback="kissat"))
+            qs.append(Q("colswaprows-" + tt, "c13.c", dict(dd, H_COLSWAP=None, INROWS=None), group="c13-colswap", checks="safety", timeout=1500, fallback="kissat"))
         qs.append(Q("rowadd-" + t, "c13.c", dict(d, H_ROWADD=None), group="c13-rowadd", checks="safety", timeout=600))
         qs.append(Q("rowadd0-" + t, "c13.c", dict(d, H_ROWADD=None, NOOFFSET=None), group="c13-rowadd", checks="safety"))
         qs.append(Q("rowclear-" + t, "c13.c", dict(d, H_ROWCLEAR=None), group="c13-rowclear", checks="safety", timeout=600))
@@ -69,7 +82,7 @@ def plan(tier, seed):
     for (nr, nc) in [(3, 3), (5, 5), (6, 4), (3, 6)]:
         qs.append(Q("ptri-%dx%d" % (nr, nc), "c13.c", {"H_PTRI": None, "NR": nr, "NC": nc, "PL": nc}, group="c13-ptri", timeout=900))
     for lo in (0, 62):
-        qs.append(Q("ptri-66x70-w%d" % lo if False else "ptri-4x70-w%d" % lo, "c13.c", {"H_PTRI": None, "NR": 4, "NC": 70, "PL": 70, "WLO": lo, "WHI": lo + 4}, group="c13-ptri", timeout=1500))
+        qs.append(Q("ptri-66x70-w%d" % lo if False else "ptri-4x70-w%d" % lo, "c13.c", {"H_PTRI": None, "NR": 4, "NC": 70, "PL": 70, "WLO": lo, "WHI": lo + 4}, group="c13-ptri", timeout=1500, mem_gb=14))
     qs.append(Q("ptri-5x6-tinyL1", "c13.c", {"H_PTRI": None, "NR": 5, "NC": 6, "PL": 6}, cfg="tinyL1", group="c13-ptri", timeout=900))
     # consistency left/right
     for n in (3, 5, 6):
